@@ -34,8 +34,8 @@ TAGS = {
     21: 'internal: guard true but translate differs from the reference (contradicts translate_sound)',
 }
 GUARD_FINDING = {201: 'C01-BLOCK-NESTED-DROPPED', 202: 'C01-BLOCK-ASSIGNED-TWICE',
-                 203: 'C01-BLOCK-STALE-READ', 204: 'C01-BLOCK-BRANCH-COVER', 205: 'C01-MOD-SIGN'}
-GUARDS = (201, 202, 203, 204, 205)
+                 203: 'C01-BLOCK-STALE-READ', 204: 'C01-BLOCK-BRANCH-COVER'}
+GUARDS = (201, 202, 203, 204)
 
 # reference meaning of the intrinsic functions: name -> (arity, Interp id) ; synonyms as in the grammar
 FN1 = {'EXP': 1, 'DEXP': 1, 'LOG': 2, 'ALOG': 2, 'DLOG': 2, 'SQRT': 3, 'DSQRT': 3, 'ABS': 4, 'DABS': 4,
@@ -619,12 +619,6 @@ def classify(ctx, spec, tags, info):
             ctx.violation(TAGS[11], {'spec': dict(spec, points=info['points'], code=info['code']), 'code': info['code'], 'tags': sorted(tags),
                                      'tag_meaning': TAGS[11], 'kind': 'code'})
             return 'violation'
-    if corr and 11 not in tags and false_guards and 1011 not in tags:
-        # DESIGN.md section 3: on a guard-false input the implementation is compared with the SPEC first; it agrees
-        # with the reference semantics here, i.e. the defect class of that guard has been repaired in /repo and only
-        # the (faithful-to-the-old-code) model disagrees: never an alarm
-        ctx.coverage['guard_false_agrees_with_spec'] = ctx.coverage.get('guard_false_agrees_with_spec', 0) + 1
-        return 'ok'
     if corr:
         ctx.broken.append('correspondence C01 translate vs code_record._parse_tree: '
                           + ', '.join(TAGS[t] for t in corr) + ' on ' + json.dumps(info['code']))
@@ -696,7 +690,7 @@ def run_code(ctx):
         'nesting_hist': {str(k): sum(1 for i in infos if i['depth'] == k) for k in sorted({i['depth'] for i in infos})},
         'mode': {m: sum(1 for s in kept if s.get('mode') == m) for m in ('guarded', 'free')},
         'guard_true': sum(1 for v in verdicts if not any(t in v for t in GUARDS)),
-        'g_no_mod_false': sum(1 for v in verdicts if 205 in v),
+        'programs_with_mod': sum(1 for i in infos if 'MOD(' in i['code'].upper()),
         'g_flat_false': sum(1 for v in verdicts if 201 in v),
         'g_once_false': sum(1 for v in verdicts if 202 in v),
         'g_cond_fresh_false': sum(1 for v in verdicts if 203 in v),
@@ -1079,7 +1073,7 @@ def gen_theta_item(rng):
     init = rng.choice(PNUMS)
     lo = rng.choice(['0', '-1', '1E-3', '-5', '-INF', '-1000000'])
     up = rng.choice(['20', '100', '1E3', 'INF', '1000000'])
-    form = rng.choice(['bare', 'bare', 'barefix', 'p1', 'p2', 'p3', 'p3', 'p3fix', 'p1fix', 'p3xn', 'p1xn', 'allsame'])
+    form = rng.choice(['bare', 'bare', 'barefix', 'p1', 'p2', 'p3', 'p3', 'p3fix', 'p1fix', 'p3xn', 'p1xn', 'p2xn', 'allsame'])
     it = {'form': form, 'init': init, 'lo': lo, 'up': up, 'n': rng.choice([2, 3]),
           'name': rng.choice([None, None, 'CL', 'V', 'KA', 'TVQ'])}
     return it
@@ -1111,6 +1105,9 @@ def theta_text_expected(it):
     elif f == 'p1xn':
         n = it['n']
         t, L, U = f'({init})x{n}', None, None
+    elif f == 'p2xn':          # refused before fix bd27e55 (finding C01-THETA-XN-REFUSED)
+        n = it['n']
+        t, U = f'({lo},{init})x{n}', None
     else:  # low = init = up: implicitly fixed
         t, L, U, fix = f'({init},{init},{init})', F(init.replace('E', 'e')), F(init.replace('E', 'e')), True
     return t, [(F(init), L, U, fix)] * n
@@ -1318,9 +1315,10 @@ def run_param_specs(ctx, specs, label, mutate=None):
             term, info = observe_params(spec, mutate)
         except Refused as e:
             refused += 1
-            ctx.coverage.setdefault('refused_samples', [])
-            if len(ctx.coverage['refused_samples']) < 3:
-                ctx.coverage['refused_samples'].append({'code': param_text(spec)[0], 'error': str(e)})
+            # every generated layout is documented NONMEM syntax the reader accepted when this check was built
+            # (incl. `(low,init)xn` since bd27e55): a refusal is a violation of the property (reading is not total)
+            ctx.violation('a documented $THETA/$OMEGA/$SIGMA form is refused by the reader',
+                          {'kind': 'params', 'spec': spec, 'control_stream': param_text(spec)[0], 'error': str(e)})
             continue
         terms.append(term)
         kept.append(spec)
@@ -1330,6 +1328,10 @@ def run_param_specs(ctx, specs, label, mutate=None):
 
 
 def probe_params(ctx, w, label):
+    try:
+        observe_params(w)
+    except Refused:
+        return {31}
     kept, verdicts, infos, refused = run_param_specs(ctx, [w], label)
     return set(verdicts[0]) if verdicts else set()
 
@@ -1375,7 +1377,7 @@ def run_params(ctx):
     cov['distinct_nontrivial'] += len({i['text'] for i in infos})
     cov.setdefault('input_distribution', {})['params'] = {
         'theta_forms': {f: sum(1 for s in kept for it in s['theta'] if it['form'] == f)
-                        for f in ('bare', 'barefix', 'p1', 'p1fix', 'p2', 'p3', 'p3fix', 'p3xn', 'p1xn', 'allsame')},
+                        for f in ('bare', 'barefix', 'p1', 'p1fix', 'p2', 'p3', 'p3fix', 'p3xn', 'p1xn', 'p2xn', 'allsame')},
         'omega_kinds': {k: sum(1 for s in kept for r in s['omega'] + s['sigma'] if r['kind'] == k) for k in ('diag', 'block', 'same')},
         'named_thetas': sum(1 for s in kept for it in s['theta'] if it.get('name')),
     }
@@ -1619,6 +1621,8 @@ def run_oforms(ctx):
 
 
 def run(ctx):
+    # entries staged in known_findings.d replace those of known_findings.json with the same id
+    ctx.findings = list({f['id']: f for f in ctx.findings}.values())
     ctx.build_gate(['C01'])
     ctx.trusted += [
         'harness/lib/sym2coq.py + coqterm.py (conversion of real sympy trees to Gallina terms)',
